@@ -3,7 +3,7 @@ their declared type, internal type variables cannot escape."""
 import ast
 
 from ..core import RuleResult, need
-from ..cfg import cfg_of
+from ..cfg import cfg_of, inline_named_conditions
 from ..flow import flow_of
 from ..astutil import src, call_attr, call_name, compare_parts, is_name, path_of, attr_stores, walk_no_nested
 
@@ -216,7 +216,7 @@ def rule_u5(repo):
     from ..kinds import infeasible_edges, TYPE_KINDS, TYPE_CONSTS
     res = RuleResult('C08.U5', 'unification succeeds without binding anything only for two variables of the same kind', floor=4)
     f = repo.func(INFER, 'type_infer.<locals>.unify')
-    cfg = cfg_of(f.node)
+    cfg = cfg_of(inline_named_conditions(f.node))       # `both_tvar = T1.is_tvar() and T2.is_tvar()` is read where it is tested
     t1, t2 = f.params()[:2]
     # "does nothing and succeeds": a normal completion that passes no call to union / unify and no raise
     actions = [n for n in cfg.nodes if n.kind in ('stmt', 'iter') and any(
